@@ -321,6 +321,11 @@ def run_job(job):
     case = lcdcheck.get_case(cs)
     ref = lcdcheck.get_ref(case)
     agg.notes["wall_ms_ref:" + job.get("tag", "")] += int((batch.real_now() - t_job) * 1000)
+    if ref.get("error"):
+        # the untimed sequential analysis of this kernel raises by itself (e.g. the IndexError OSACA has for
+        # kernels whose last line number is >= 1000 and lies on an LCD): nothing to say about time-outs
+        agg.notes["case_skipped_untimed_analysis_raises"] += 1
+        return agg.to_dict()
     agg.notes["case_tractable" if ref["tractable"] else "case_intractable"] += 1
     n_runs = job["n"]
     if ref["lines"] > 150000 and job.get("tag") == "sim-timeout" and not cs.get("keep_runs"):
@@ -425,6 +430,13 @@ def build_cases(tier, seed):
             t = corpus.repeat_kernel(lines, times)
             tag = "rep%d" % times
         cases.append({"name": "%s+%s" % (name, tag), "arch": "zen1" if isa == "x86" else arm_models[j % 4], "text": t})
+    # kernels deep inside a big file (all line numbers above 1000), with and without the closing branch
+    for j in range(4 if tier == "quick" else 24):
+        isa = "x86" if j % 2 == 0 else "aarch64"
+        shape, t = corpus.gen_kernel(isa, rng, rng.choice([50, 54, 60]), rng.choice(["chains", "ring1", "bump_mem", "mixed"]), noise=False)
+        body, sel = corpus.deep_variant(t, isa, rng.choice([1000, 1499, 5000]), drop_tail=(j % 4 < 2))
+        cases.append({"name": "gen/deep-%s-%d" % (shape, j), "arch": "zen1" if isa == "x86" else arm_models[j % 4], "text": body,
+                      "lines": sel})
     for w in corpus.windowed_cases(rng, 3 if tier == "quick" else 20):
         cases.append({"name": w["name"], "arch": w["arch"], "text": w["text"], "lines": w["lines"]})
     for j in range(1 if tier == "quick" else 8):
